@@ -52,7 +52,7 @@ def _odp(d):
 ATOMS = {
     "none": lambda: None, "true": lambda: True, "false": lambda: False, "int0": lambda: 0, "int1": lambda: 1,
     "bigint": lambda: 2 ** 70, "float": lambda: 0.5, "negzero": lambda: -0.0, "nan": lambda: float("nan"), "inf": lambda: float("inf"),
-    "str": lambda: "text", "empty-str": lambda: "", "nonascii": lambda: "é€", "bytes": lambda: b"\x00\xff", "empty-bytes": lambda: b"",
+    "str": lambda: "text", "empty-str": lambda: "", "nonascii": lambda: "é€", "str-surrogate": lambda: "name-\udcff-\ud800", "bytes": lambda: b"\x00\xff", "empty-bytes": lambda: b"",
     "date": lambda: datetime.date(2020, 2, 29), "dt-naive": lambda: datetime.datetime(2020, 2, 29, 1, 2, 3, 4),
     "dt-aware": lambda: datetime.datetime(2020, 2, 29, 1, 2, 3, tzinfo=UTC), "pd-timestamp": lambda: pd.Timestamp("2020-02-29 01:02:03"),
     "empty-list": lambda: [], "empty-dict": lambda: {},
@@ -79,6 +79,8 @@ EXCS = {
     "exc-nested": lambda: (_ for _ in ()).throw(Outer.Nested("nested one")),
     "exc-local": _raise_local,
     "exc-keyerror": lambda: (_ for _ in ()).throw(KeyError("k")),
+    "exc-nonascii": lambda: (_ for _ in ()).throw(ValueError("é€ not found")),
+    "exc-surrogate": lambda: (_ for _ in ()).throw(ValueError("cannot read file name-\udcff")),  # as os.fsdecode gives for a non-UTF-8 name
     "exc-samename": lambda: (_ for _ in ()).throw(c02fx_b.Custom1("custom one of the other module")),
     "exc-transient": lambda: (_ for _ in ()).throw(Transient("try later")),
 }
